@@ -10,6 +10,7 @@ package main
 import (
 	"bytes"
 	"context"
+	"encoding/json"
 	"fmt"
 	"io"
 	"mime/multipart"
@@ -20,6 +21,8 @@ import (
 	"sort"
 	"strconv"
 	"strings"
+	"sync"
+	"time"
 
 	"github.com/containerd/containerd/v2/core/remotes/docker"
 	"github.com/containerd/containerd/v2/pkg/reference"
@@ -53,7 +56,11 @@ type Case struct {
 	PCS   int64  `json:"pcs"`
 	Force bool   `json:"force,omitempty"`
 	Cache string `json:"cache"` // mem | dir
-	Ops   []Op   `json:"ops"`
+	Ops   []Op   `json:"ops,omitempty"`
+	// concurrent part (oracle only): one op list per goroutine, run at the same time after Ops
+	Conc     [][]Op `json:"conc,omitempty"`
+	ConcSeed uint64 `json:"conc_seed,omitempty"`
+	MissPct  int    `json:"miss_pct,omitempty"` // percentage of cache lookups answered "miss" (entry lost)
 }
 
 func blobBytes(size int) []byte {
@@ -79,9 +86,28 @@ type server struct {
 	reqs     []string // Coq req terms of the current op
 	kinds    []string // personalities actually applied (for the distribution)
 	rangeErr bool     // a Range header the server could not parse (never expected)
+
+	// concurrent mode: requests are serialised by mu, personalities are drawn from rng
+	conc  bool
+	calm  bool // only well-behaved answers (closing read)
+	mu    sync.Mutex
+	rng   *hx.Rng
+	nreq  int
+	inflt int
+	maxIn int
 }
 
+var concKinds = []string{"multi", "mpalways", "perm", "squash", "whole", "extra", "over", "first", "dup", "dupextra",
+	"trunc", "broken", "500", "403", "400", "conn"}
+var concWeights = []int{40, 10, 10, 8, 4, 6, 4, 3, 2, 2, 4, 3, 3, 3, 2, 1}
+
 func (s *server) next() Pers {
+	if s.conc {
+		if s.calm {
+			return Pers{K: "multi"}
+		}
+		return Pers{K: concKinds[s.rng.Pick(concWeights...)], A: s.rng.Intn(4)}
+	}
 	if len(s.script) == 0 {
 		return Pers{K: "default"}
 	}
@@ -198,6 +224,27 @@ func parseRanges(h string) ([]reg, bool) {
 }
 
 func (s *server) RoundTrip(req *http.Request) (*http.Response, error) {
+	if !s.conc {
+		return s.roundTrip(req)
+	}
+	s.mu.Lock()
+	s.nreq++
+	s.inflt++
+	if s.inflt > s.maxIn {
+		s.maxIn = s.inflt
+	}
+	pause := time.Duration(50+s.rng.Intn(400)) * time.Microsecond
+	s.served, s.reqs, s.kinds = nil, nil, s.kinds[:0]
+	r, err := s.roundTrip(req)
+	s.mu.Unlock()
+	time.Sleep(pause) // network latency: lets other readers join the single-flight
+	s.mu.Lock()
+	s.inflt--
+	s.mu.Unlock()
+	return r, err
+}
+
+func (s *server) roundTrip(req *http.Request) (*http.Response, error) {
 	if req.URL.Host == "reg.test" {
 		s.reqs = append(s.reqs, "QRedir")
 		p := s.next()
@@ -441,6 +488,11 @@ func (s *server) RoundTrip(req *http.Request) (*http.Response, error) {
 type recCache struct {
 	inner  cache.BlobCache
 	commit func(key string, data []byte)
+	// concurrent mode: a percentage of lookups is answered "miss" (the entry was evicted by someone else)
+	mu      sync.Mutex
+	rng     *hx.Rng
+	missPct int
+	misses  int
 }
 
 type recWriter struct {
@@ -469,6 +521,17 @@ func (c *recCache) Add(key string, opts ...cache.Option) (cache.Writer, error) {
 	return &recWriter{Writer: w, c: c, key: key}, nil
 }
 func (c *recCache) Get(key string, opts ...cache.Option) (cache.Reader, error) {
+	if c.missPct > 0 {
+		c.mu.Lock()
+		miss := c.rng.Intn(100) < c.missPct
+		if miss {
+			c.misses++
+		}
+		c.mu.Unlock()
+		if miss {
+			return nil, fmt.Errorf("missed cache (scripted loss)")
+		}
+	}
 	return c.inner.Get(key, opts...)
 }
 func (c *recCache) Close() error { return c.inner.Close() }
@@ -491,11 +554,18 @@ type execResult struct {
 	outs     []OpOut
 	problems []string
 	skip     bool // could not resolve (never expected)
+	// concurrent part
+	concOK, concReqs, concMaxInflight, concMisses int
 }
 
 func run(c Case) execResult {
 	var res execResult
-	bad := func(f string, a ...any) { res.problems = append(res.problems, fmt.Sprintf(f, a...)) }
+	var pmu sync.Mutex
+	bad := func(f string, a ...any) {
+		pmu.Lock()
+		res.problems = append(res.problems, fmt.Sprintf(f, a...))
+		pmu.Unlock()
+	}
 	blob := blobBytes(c.Size)
 	size := int64(c.Size)
 	srv := &server{blob: blob, cs: c.CS, phase: "resolve"}
@@ -531,7 +601,10 @@ func run(c Case) execResult {
 	keyRegion := map[string][2]int64{}
 	given := map[int64]bool{} // blob bytes the cache was ever given
 	rc := &recCache{inner: inner}
+	var gmu sync.Mutex
 	rc.commit = func(key string, data []byte) {
+		gmu.Lock()
+		defer gmu.Unlock()
 		r, ok := keyRegion[key]
 		if !ok {
 			bad("a chunk was committed to the cache under a key that is no chunk of this blob")
@@ -648,6 +721,121 @@ func run(c Case) execResult {
 		}
 		lastFS = out.FSize
 		res.outs = append(res.outs, out)
+	}
+	if len(c.Conc) > 0 {
+		// ---- concurrent part (oracle only): readers and prefetchers at the same time, shared single-flight
+		// fetches, lookups that lose entries, a registry that misbehaves at random ----
+		srv.phase = "data"
+		srv.rng = hx.NewRng(c.ConcSeed)
+		srv.conc = true
+		rc.rng = hx.NewRng(c.ConcSeed + 1)
+		rc.missPct = c.MissPct
+		var wg sync.WaitGroup
+		stop := make(chan struct{})
+		monDone := make(chan struct{})
+		go func() { // FetchedSize never decreases and never exceeds the size, at any moment
+			defer close(monDone)
+			last := lastFS
+			for {
+				fs := b.FetchedSize()
+				if fs < last {
+					bad("FetchedSize decreased from %d to %d while readers were running", last, fs)
+				}
+				if fs > size {
+					bad("FetchedSize %d exceeds the blob size %d while readers were running", fs, size)
+				}
+				last = fs
+				select {
+				case <-stop:
+					return
+				default:
+					time.Sleep(20 * time.Microsecond)
+				}
+			}
+		}()
+		okReads := make([]int, len(c.Conc))
+		for gi, ops := range c.Conc {
+			wg.Add(1)
+			go func(gi int, ops []Op) {
+				defer wg.Done()
+				for _, o := range ops {
+					func() {
+						defer func() {
+							if r := recover(); r != nil {
+								bad("concurrent %s panicked: %v", o.Op, r)
+							}
+						}()
+						switch o.Op {
+						case "read":
+							p := make([]byte, o.N)
+							n, err := b.ReadAt(p, o.Off)
+							if err != nil {
+								return
+							}
+							want := int64(0)
+							if o.Off <= size {
+								want = size - o.Off
+								if want > o.N {
+									want = o.N
+								}
+							}
+							if int64(n) != want {
+								bad("concurrent ReadAt(off=%d,len=%d) on a blob of %d bytes returned n=%d, want %d", o.Off, o.N, size, n, want)
+							} else if n > 0 && !bytes.Equal(p[:n], blob[o.Off:o.Off+int64(n)]) {
+								bad("concurrent ReadAt(off=%d,len=%d) returned bytes that differ from blob[%d:%d]", o.Off, o.N, o.Off, o.Off+int64(n))
+							} else if n > 0 {
+								okReads[gi]++
+							}
+						case "cache":
+							_ = b.Cache(o.Off, o.N)
+						case "expire":
+							srv.mu.Lock()
+							srv.validTok++
+							srv.mu.Unlock()
+						}
+					}()
+				}
+			}(gi, ops)
+		}
+		wg.Wait()
+		close(stop)
+		<-monDone
+		for _, n := range okReads {
+			res.concOK += n
+		}
+		res.concReqs = srv.nreq
+		res.concMaxInflight = srv.maxIn
+		rc.mu.Lock()
+		res.concMisses = rc.misses
+		rc.missPct = 0
+		rc.mu.Unlock()
+		srv.mu.Lock()
+		srv.calm = true
+		srv.mu.Unlock()
+		gmu.Lock()
+		ngiven := int64(len(given))
+		gmu.Unlock()
+		if fs := b.FetchedSize(); fs != ngiven {
+			bad("after the concurrent phase FetchedSize = %d but the cache was given %d distinct blob bytes", fs, ngiven)
+		}
+		// closing read of the whole blob from a now well-behaved registry (may need one URL refresh)
+		func() {
+			defer func() {
+				if r := recover(); r != nil {
+					bad("closing read panicked: %v", r)
+				}
+			}()
+			p := make([]byte, size+1)
+			n, err := b.ReadAt(p, 0)
+			if err != nil {
+				bad("closing read of the whole blob failed against a well-behaved registry: %v", err)
+			} else if int64(n) != size || !bytes.Equal(p[:n], blob) {
+				bad("closing read after the concurrent phase returned %d bytes that are not the blob", n)
+			}
+		}()
+		if fs := b.FetchedSize(); fs > size {
+			bad("FetchedSize %d exceeds the blob size %d", fs, size)
+		}
 	}
 	if srv.rangeErr {
 		bad("the implementation sent a Range header the test registry cannot parse")
@@ -845,6 +1033,59 @@ func gen(r *hx.Rng) Case {
 	return c
 }
 
+// genConc: a blob with a few "hot" ranges that several goroutines read and prefetch at the same time.
+func genConc(r *hx.Rng) Case {
+	c := Case{Cache: "mem"}
+	c.CS = int64(r.Range(1, 6))
+	c.Size = r.Range(1, 8)*int(c.CS) + r.Range(-1, 1)
+	if c.Size < 1 {
+		c.Size = 1
+	}
+	switch r.Intn(3) {
+	case 0:
+		c.PCS = 0
+	case 1:
+		c.PCS = 2 * c.CS
+	default:
+		c.PCS = 3*c.CS + 1
+	}
+	if r.Chance(1, 4) {
+		c.Cache = "dir"
+	}
+	c.MissPct = []int{0, 10, 30, 60}[r.Intn(4)]
+	c.ConcSeed = r.U64()
+	size := int64(c.Size)
+	type hot struct{ off, n int64 }
+	hots := make([]hot, r.Range(1, 2))
+	for i := range hots {
+		hots[i] = hot{int64(r.Intn(c.Size)), int64(r.Range(1, 3*int(c.CS)))}
+	}
+	// a little sequential history first (warm part of the cache)
+	if r.Chance(1, 2) {
+		c.Ops = append(c.Ops, Op{Op: "read", Off: int64(r.Intn(c.Size)), N: int64(r.Range(1, int(c.CS)))})
+	}
+	g := r.Range(2, 7)
+	for i := 0; i < g; i++ {
+		var ops []Op
+		for j, n := 0, r.Range(1, 4); j < n; j++ {
+			h := hots[r.Intn(len(hots))]
+			switch r.Pick(60, 15, 20, 5) {
+			case 0:
+				ops = append(ops, Op{Op: "read", Off: h.off, N: h.n})
+			case 1:
+				ops = append(ops, Op{Op: "read", Off: int64(r.Intn(c.Size + 2)), N: int64(r.Intn(3*int(c.CS) + 2))})
+			case 2:
+				ops = append(ops, Op{Op: "cache", Off: h.off, N: h.n + int64(r.Intn(2*int(c.CS)))})
+			default:
+				ops = append(ops, Op{Op: "expire"})
+			}
+		}
+		c.Conc = append(c.Conc, ops)
+	}
+	_ = size
+	return c
+}
+
 func corpus() []Case {
 	rd := func(off, n int64, ks ...string) Op {
 		o := Op{Op: "read", Off: off, N: n}
@@ -915,7 +1156,23 @@ func main() {
 		ctx.Count("cache." + c.Cache)
 		ctx.CountN("ops", len(c.Ops))
 		term := coqCase(c, res.outs)
-		id := ctx.Case(term, c, term, fetches > 0 && okReads > 0)
+		key := term
+		nontrivial := fetches > 0 && okReads > 0
+		if len(c.Conc) > 0 {
+			// the concurrent part is checked by the oracle only; the Coq term is the sequential prefix
+			ctx.Count("conc.cases")
+			ctx.CountN("conc.goroutines", len(c.Conc))
+			ctx.CountN("conc.reads_ok", res.concOK)
+			ctx.CountN("conc.requests", res.concReqs)
+			ctx.CountN("conc.cache_misses_injected", res.concMisses)
+			if res.concMaxInflight > 1 {
+				ctx.Count("conc.overlapping_requests")
+			}
+			b, _ := json.Marshal(c)
+			key = string(b)
+			nontrivial = res.concOK > 0 && res.concReqs > 0
+		}
+		id := ctx.Case(term, c, key, nontrivial)
 		sort.Strings(res.problems)
 		seen := map[string]bool{}
 		for _, p := range res.problems {
@@ -937,8 +1194,13 @@ func main() {
 		emit(c)
 	}
 	r := hx.NewRng(ctx.Seed)
+	nconc := ctx.N / 8 // concurrent cases (oracle only)
 	for i := len(cp); i < ctx.N; i++ {
-		emit(gen(r.Fork()))
+		if i >= ctx.N-nconc {
+			emit(genConc(r.Fork()))
+		} else {
+			emit(gen(r.Fork()))
+		}
 	}
 	ctx.Finish()
 }
